@@ -1,5 +1,5 @@
 (* C13 driver: replays the IN lines of harness/c13_join.cpp on the extracted model (Model/Join.v,
-   fixed code lp = true).
+   fixed code lp = true, pf = true).
    IN SEQ  id m ini ops self   -> OUT SEQ id main=<results of task 0> self=<results of the self-joiner>
    IN RACE id J=<events> T=<events> -> OUT RACE id accept | reject:<why>
      acceptor: is there an interleaving of the joiner's and the target's observed event sequences
@@ -8,7 +8,7 @@
 let n0 = nat_of_int 0
 let n1 = nat_of_int 1
 let n2 = nat_of_int 2
-let stepc tgt c t = step (tstep true tgt) c (t, ())
+let stepc tgt c t = step (tstep true true tgt) c (t, ())
 let rec rev_events = function [] -> [] | e :: r -> rev_events r @ [e]
 
 let str_of_ev tk e =
@@ -73,8 +73,9 @@ let apply_t tgt c e =
   let st () = stepc tgt c n1 in
   match e, pct c with
   | "b", PBody when (snd c n1).prog = [] -> Some (st ())
-  | "k", PExit -> let c' = st () in (match pct c' with PCbCall -> Some c' | _ -> None)
-  | "f", PCbCall -> let c' = st () in (match pct c' with PCbRes _ -> Some c' | _ -> None)
+  (* k: 1312, unlocked, before the invocation: the entry was taken out of the list under the lock *)
+  | "k", (PExit | PCbPop) -> let c' = st () in (match pct c' with PCbRun (_, _) -> Some c' | _ -> None)
+  | "f", PCbRun (_, _) -> let c' = st () in (match pct c' with PCbRes _ -> Some c' | _ -> None)
   | "p", PCbRes _ -> Some (st ())
   | "n", (PExit | PCbPop) -> let c' = st () in (match pct c' with PFree -> Some c' | _ -> None)
   | _ -> None
@@ -117,8 +118,8 @@ let () =
           if t = n0 then List.map op_of_string (split_on ',' ops)
           else if self && t = st then [AJoin n0; AJoinable n0; ADetach n0; AJoinable n0]
           else [AWork; AYield; AWork] in
-        let c0 = jrun true tgt h0 (nat_of_int n) progs [] in
-        let c = round_robin true tgt (nat_of_int 60) (nat_of_int n) c0 in
+        let c0 = jrun true true tgt h0 (nat_of_int n) progs [] in
+        let c = round_robin true true tgt (nat_of_int 60) (nat_of_int n) c0 in
         let ok = join_ok_b tgt (fst c) in
         Printf.printf "OUT SEQ %s main=%s self=%s%s\n" id (results (fst c) n0)
           (if self then results (fst c) st else "-") (if ok then "" else " MODEL-MONITOR-FAILED")
@@ -127,7 +128,7 @@ let () =
         let tgt _ _ = n1 in
         let h0 _ _ = true in
         let progs x = if x = n0 then [AJoin n0] else if x = n1 then [] else List.init 64 (fun _ -> AResume n0) in
-        let c0 = jrun true tgt h0 (nat_of_int 3) progs [] in
+        let c0 = jrun true true tgt h0 (nat_of_int 3) progs [] in
         let acc = go tgt c0 js ts in
         Printf.printf "OUT RACE %s %s\n" id (if acc then "accept" else "reject")
       | _ -> ()
